@@ -186,6 +186,13 @@ def run_scripted(sid, ctx):
         timeout = rng.choice([0, 0.0])
         history = [dict(n=n, kind="never", hold=rng.randrange(n)) for n in (rng.choice([1, 2, 6]), rng.choice([3, 12]))][:rng.choice([1, 2])]
         ctx.count("histories_with_timeout_zero")
+    # one history in seven on a backend WITHOUT a retrieval callback (the base flavour of the backend API: the caller's thread
+    # fetches results - and meets failures - itself, in submission order; no generators, no timeouts there)
+    plain_api = sid % 7 == 3 and sid % 12 != 7
+    if plain_api:
+        ra, timeout = "list", None
+        history = [c for c in history if c["kind"] != "never"] or [dict(n=3, kind="ok")]
+        ctx.count("histories_on_a_backend_without_retrieval_callback")
     trace = Trace()
     sync_p = rng.choice([0.0, 0.0, 0.3])
     srng = harness.rng_for(ctx.seed, ID, "sync", sid)
@@ -195,13 +202,13 @@ def run_scripted(sid, ctx):
     def is_held(fut):
         return fut.call_no == held_call[0] and bool(set(fut.items) & held)
 
-    be = ScriptedBackend(trace=trace, sync_in_submit=(lambda fut: not is_held(fut) and srng.random() < sync_p) if sync_p else None)
+    be = ScriptedBackend(trace=trace, sync_in_submit=(lambda fut: not is_held(fut) and srng.random() < sync_p) if sync_p else None, retrieve_callback=not plain_api)
     ctl = AutoController(be, harness.rng_for(ctx.seed, ID, "ctl", sid), nthreads=rng.choice([1, 2, 3]),
                          late_prob=rng.choice([0.0, 0.1, 0.5, 0.9]), late_at_configure=rng.choice([0.0, 0.5, 1.0]),
                          hold=is_held)
     inj = _S["inj"]
     inj.reseed(ctx.seed * 104729 + sid, p_yield=rng.choice([0.0, 0.02]), p_sleep=rng.choice([0.0, 0.004]))
-    cfgdesc = dict(J=J, b=b, pd=pd, ra=ra, timeout=timeout, managed=managed, sid=sid, sync_p=sync_p)
+    cfgdesc = dict(J=J, b=b, pd=pd, ra=ra, timeout=timeout, managed=managed, sid=sid, sync_p=sync_p, retrieval_callback=not plain_api)
     p = Parallel(n_jobs=J, backend=be, batch_size=b, pre_dispatch=pd, return_as=ra, timeout=timeout)
     ctl.start()
     base_threads = threading.active_count()
